@@ -45,10 +45,10 @@ ob("O-C10-read-bytes", ["C10", "C13"], J, "c10_read_bytes_index", "the real Val:
 
 for k, what in (("exp", "literals with an exponent and no dot (1e1000, 1E2, -2e-3) are decimals whose text is kept character for character"),
                 ("frac", "literals with a fraction (1.10, -0.0, 1.5e3) are decimals whose text is kept character for character, trailing zero included"),
-                ("reject", "a sign alone, a literal ending in `.` or `e`, or a sign followed by a non-digit is a reported error - no unwrap on a failed integer parse"),
+                ("reject", "a sign alone, a sign before a non-digit, a literal ending in `.` or `e` (none of them JSON): the reader does not panic on them - in particular it does not unwrap a failed integer parse - and if it accepts one, then as the decimal with that text"),
                 ("inf", "+Infinity / -Infinity read as the infinite floats"),
-                ("int", "an integer literal is handed to Num::from_str_radix whole (sign included, nothing after it), in base 10, and that function's answer is returned (the integer parser itself is core / num-bigint, replaced by a ghost stub)")):
-    ob(f"O-C07-parse-num-{k}", ["C07", "C05"] if k == "reject" else ["C07"], J, f"c07_parse_num_{k}", "parse_num (the JSON / XJON / CSV number reader) on literals run through hifijson's real slice lexer: " + what, ["jaq-json/src/read.rs::parse_num"], label="point", kind="point", composes_dependency=True, **({"stubs": ["from_str_radix"]} if k in ("int", "exp", "frac", "reject") else {}))
+                ("int", "an integer literal is handed to Num::from_str_radix whole (sign included, nothing after it), in base 10, and that function's answer is returned")):
+    ob(f"O-C07-parse-num-{k}", ["C07", "C05"] if k == "reject" else ["C07"], J, f"c07_parse_num_{k}", "parse_num (the JSON / XJON / CSV number reader) on literals run through hifijson's real slice lexer; the integer parser Num::from_str_radix (core / num-bigint) is replaced by a ghost stub that answers None unless the text is an optional sign and digits: " + what, ["jaq-json/src/read.rs::parse_num"], label="point", kind="point", composes_dependency=True, **({"stubs": ["from_str_radix"]} if k in ("int", "exp", "frac", "reject") else {}))
 
 FU = "jaq-json/src/funs.rs::"
 ob("O-C12-contains-arr", ["C12"], J, "c12_contains_arrays", "Val::contains on arrays of integers at four points: every element of the argument is contained in some element of the input - also when the argument is longer than the input ([1,2] contains [1,1,2]); [3] is not contained; the empty array is contained in everything and contains only itself", [FU + "Val::contains"], label="point", kind="point")
